@@ -607,7 +607,10 @@ def check_bounds(ctx: Ctx) -> None:
             ok = ok and len(ifs) == 1
             if ok:
                 lits = conj_literals(ifs[0].test)
-                ok = len(lits) == 1 and lits[0][0] is False and not ifs[0].orelse and len(ifs[0].body) == 1 and isinstance(ifs[0].body[0], ast.Assign) and dotted(ifs[0].body[0].targets[0]) == v and norm_stmt(ifs[0].body[0].value) == infinite
+                # the branch taken when the bound is NOT finite holds the single replacement by +/- infinity
+                not_finite = ifs[0].body if (len(lits) == 1 and lits[0][0] is False) else ifs[0].orelse
+                finite_br = ifs[0].orelse if (len(lits) == 1 and lits[0][0] is False) else ifs[0].body
+                ok = len(lits) == 1 and all(isinstance(x_, ast.Pass) for x_ in finite_br) and len(not_finite) == 1 and isinstance(not_finite[0], ast.Assign) and dotted(not_finite[0].targets[0]) == v and norm_stmt(not_finite[0].value) == infinite
                 # numerical bound stored before, mathematical bound after the replacement
                 ok = ok and num[0].lineno < ifs[0].lineno < mth[0].lineno and cfg.has(num[0])
         ctx.ob("19.5-openturns", con, bool(ok), f"OpenTURNS {side} bound: the numerical bound is {getter}(), the mathematical one is {infinite} exactly when {finite}() is false", node=(mth or [f])[0], stmt=f"{side} bound: numerical = {getter}, mathematical = {infinite} iff not {finite}")
